@@ -342,6 +342,12 @@ def run_split(w, case):
                 got.flow_id, got.packet_id, got.size, got.src, got.time = 99, 999, 1, 'changed', -1.0
                 if fields_of(p) != before:
                     viol.append(('C18.3', 'changing header fields of the copy on output %d changed the original' % i))
+                # what a port on this branch does to the copy: a per-hop stamp and a priority tag
+                got.perhop_time['branch%d' % i] = 7.5
+                got.priorities['branch%d' % i] = 3
+                if all_fields(p) != before_all:
+                    viol.append(('C18.3', 'stamping the copy on output %d (perhop_time / priorities) changed the original: '
+                                 '%r' % (i, [x for x, y in zip(all_fields(p), before_all) if x != y])))
     return viol, stats, case.get('npk', 1) >= 2
 
 
